@@ -10,8 +10,14 @@ CHECKS = {
    text="Lean theorems over a model of the callback chain whose forwarder behaviour is regenerated from ctx.c on every run: "
         "invoke = first-overriding-layer spec for every stack depth; a pass-through layer is transparent; add/del restores. "
         "Hypothesis-free forms compile only while all seven forwarders pass cb->next. Tie: generated table + differential "
-        "run of the real add_cb/del_cb/get_cb chain on exhaustive small and random deep stacks.",
-   note=TB + "Modelled: an implementation's behaviour is a function of (identity, record). Not modelled: python/addrxlat.c bindings.",
+        "run of the real add_cb/del_cb/get_cb chain on exhaustive small and random deep stacks. The calls the libraries make themselves "
+        "through the top record (libaddrxlat's ctx->cb->hook(ctx->cb,..), libkdumpfile's get_symbol_val) are the model operation topCall; which "
+        "record each call site passes is an extracted table (Kdf.Gen.topCallPasses); topCall_transparent: any number of pass-through layers on a "
+        "dump object's layer are invisible to them. Tie: harness/s_cbdump.c on a generated x86-64 Linux vmcore -- 0..3 layers added before/after "
+        "open, attributes, all seven hooks on the top record, KVADDR reads/conversions, again after removal in random order, all equal to the "
+        "plain context. Python binding: 7 hooks x 9 outcome kinds through 0..3 Context layers, and page-table walks through 1..3 Context layers "
+        "on a dump object's context (python/kdumpfile.c + python/addrxlat.c built from the tree) against a reference walk with plain reads.",
+   note=TB + "Modelled: an implementation's behaviour is a function of (identity, record). Not modelled: python/addrxlat.c bindings (observed only).",
    technique="Lean 4 proof over generated forwarder table + differential correspondence", design="§6 C17"),
 }
 CHECKS["C10"] = dict(
@@ -216,7 +222,11 @@ CHECKS["C15"] = dict(
         "page round trips, session_balanced — for all oracles, fault points, lengths and policies. Tie: link-time --wrap traces of forced paths (dry run, then "
         "rerun with the n-th pread/mmap/malloc failing) compared with the model's traces. Property evaluation: after EVERY API call page-cache + mmap-cache "
         "+ read-cache references = pages lent to addrxlat, no library-held blob pins, descriptors untouched (close/lseek/read interposed); after freeing "
-        "everything in random order under LeakSanitizer no heap block or mapping remains.",
+        "everything in random order under LeakSanitizer no heap block or mapping remains. Round 2: fcache_get_fb/fcache_put, the table scan of "
+        "make_xen_pfn_map_* (xenMapScan), libaddrxlat's read cache (get_cache_buf, cleanup_cache) and addrxlat_ctx_add_cb/del_cb are model "
+        "operations with balance theorems (removing ANY record gives back every cached page: ctxDelCb_balanced, axSession_balanced); harness ops "
+        "fb/axread/addcb/delcb with slot/MRU state compared after every call; Xen cores with straddling .xen_p2m tables, SADUMP/LKCD/s390 files and "
+        "contexts without a dump joined the API walks.",
    note=TB + "That the model's `stuck` result is unreachable (fcache_get_chunk entry-array bound, loop fuel) is not proved (it would show as a trace "
         "difference). Findings recorded: reopen-open-context, realloc-caches-lent, clone-dict-new-attrs.",
    technique="Lean 4 proof (ledger balance of transcribed functions) + trace correspondence + reference-sum/leak monitors", design="§6 C15")
